@@ -5,13 +5,15 @@
 #include "common/refmatch.hpp"
 #include "common/refosc.hpp"
 #include <rtosc/rtosc.h>
+#include <rtosc/ports.h>
 
 using refmatch::Pattern;
 
 struct Case {
   std::string pattern, address, tags;
-  template <class A> void io(A &a) { a(pattern)(address)(tags); }
-  std::string describe() const { return "pattern=\"" + pattern + "\" address=\"" + address + "\" tags=\"" + tags + "\""; }
+  std::string pattern2;   // a second pattern that replaces the first one in the same storage before it is matched (may be empty: not done)
+  template <class A> void io(A &a) { a(pattern)(address)(tags); if (a.more()) a(pattern2); }   // pattern2: optional trailing field
+  std::string describe() const { return "pattern=\"" + pattern + "\" address=\"" + address + "\" tags=\"" + tags + "\"" + (pattern2.empty() ? "" : " then in the same storage pattern=\"" + pattern2 + "\""); }
 };
 const char *vf_property() { return "C05"; }
 void vf_init() {}
@@ -85,6 +87,17 @@ Case vf_generate() {
   // tags: one of the pattern's alternatives, an extension, or unrelated
   if (p.has_types && vf::chance(60)) { c.tags = vf::oneof(p.types); if (vf::chance(25)) c.tags += vf::oneof<std::string>({"i", "f", "s"}); }
   else c.tags = vf::oneof(TAGSETS);
+  // a second pattern for the same storage: the same text with another bound at one enumeration (same or other number of digits)
+  if (vf::chance(40)) {
+    size_t h = c.pattern.find('#');
+    if (h != std::string::npos) {
+      size_t e = h + 1; while (e < c.pattern.size() && isdigit((unsigned char)c.pattern[e])) e++;
+      long n = atol(c.pattern.substr(h + 1, e - h - 1).c_str());
+      long n2 = vf::oneof<long>({n / 2, n + 1, n + 3, 1, n * 10});
+      if (n2 < 1 || n2 == n) n2 = n + 2;
+      c.pattern2 = c.pattern.substr(0, h + 1) + std::to_string(n2) + c.pattern.substr(e);
+    } else c.pattern2 = gen_pattern();
+  }
   return c;
 }
 
@@ -126,6 +139,51 @@ std::string vf_run(const Case &c, vf::Ctx &ctx) {
   build_msg(buf, sizeof buf, c.address, c.tags);
   Verdict v = judge(c.pattern, p, c.address, c.tags, buf, ctx, true);
   if (!v.fail.empty()) return v.fail;
+  // the same patterns in run-time storage that is reused: first pattern matched there, then the second one in its place
+  if (!c.pattern2.empty()) {
+    Pattern p2 = refmatch::parse(c.pattern2);
+    if (p2.ok) {
+      static char store[256];
+      auto match_in_store = [&](const std::string &pat, const Pattern &pp, const char *what) -> std::string {
+        if (pat.size() + 1 > sizeof store) return "";
+        memset(store, 0, sizeof store);
+        memcpy(store, pat.c_str(), pat.size());
+        bool got = rtosc_match(store, buf, nullptr);
+        bool pm = refmatch::path_matches(pp, c.address);
+        refmatch::Expect te = refmatch::types_expect(pp, c.tags);
+        if (pm && te == refmatch::MUST && !got) return std::string(what) + " pattern \"" + pat + "\" (in reused storage) rejects \"" + c.address + "\" ,\"" + c.tags + "\"";
+        if ((!pm || te == refmatch::MUST_NOT) && got) return std::string(what) + " pattern \"" + pat + "\" (in reused storage) accepts \"" + c.address + "\" ,\"" + c.tags + "\"";
+        return "";
+      };
+      std::string r = match_in_store(c.pattern, p, "first");
+      if (r.empty()) r = match_in_store(c.pattern2, p2, "second");
+      if (!r.empty() && !(vf::known("alt-no-backtrack"))) return r;
+      if (!r.empty()) return r;
+      ctx.count("class.second_pattern_in_same_storage");
+    }
+  }
+  // the hashed dispatch path has its own copies of the matcher: a one-port table (plus a decoy) must call the port exactly
+  // when the pattern language says the message matches
+  {
+    static int hits;
+    hits = 0;
+    rtosc::Ports table({{c.pattern.c_str(), "", nullptr, [](const char *, rtosc::RtData &) { hits++; }},
+                        {"zz_decoy:", "", nullptr, [](const char *, rtosc::RtData &) {}}});
+    bool pm = refmatch::path_matches(p, c.address);
+    refmatch::Expect te = refmatch::types_expect(p, c.tags);
+    for (int with_loc = 0; with_loc < 2; with_loc++) {
+      hits = 0;
+      char loc[512];
+      memset(loc, 0, sizeof loc);
+      rtosc::RtData d;
+      if (with_loc) { d.loc = loc; d.loc_size = sizeof loc; }
+      table.dispatch(buf, d, false);
+      const char *how = with_loc ? "with" : "without";
+      if (pm && te == refmatch::MUST && hits != 1) return std::string("Ports::dispatch ") + how + " location buffer does not call port \"" + c.pattern + "\" for \"" + c.address + "\" ,\"" + c.tags + "\" (" + std::to_string(hits) + " calls)";
+      if ((!pm || te == refmatch::MUST_NOT) && hits != 0) return std::string("Ports::dispatch ") + how + " location buffer calls port \"" + c.pattern + "\" for \"" + c.address + "\" ,\"" + c.tags + "\" although the message does not match";
+    }
+    ctx.count("dispatch.one_port_table");
+  }
   bool special = c.pattern.find_first_of("#{") != std::string::npos || p.trailing_slash || p.has_types;
   // near-miss or hit: shares a first character with something the pattern accepts, or is accepted
   if (special && !v.excluded) ctx.nontriv(vf::fnv(c.pattern + "\1" + c.address + "\1" + c.tags));
